@@ -6,6 +6,7 @@
 package engb
 
 import (
+	"errors"
 	"sort"
 	"strings"
 	"sync"
@@ -88,6 +89,8 @@ type mqttClient struct {
 	connected bool
 	handlers  map[string]mqtt.MessageHandler
 	inflight  bool
+	failSubs  int // fault: the next n topic subscriptions fail (broker unreachable at that moment)
+	subFailed int
 }
 
 func (b *broker) newClient(name string) *mqttClient {
@@ -95,6 +98,8 @@ func (b *broker) newClient(name string) *mqttClient {
 }
 
 type token struct{ err error }
+
+var errBrokerUnreachable = errors.New("simulated: notification broker unreachable")
 
 func (t *token) Wait() bool                     { return true }
 func (t *token) WaitTimeout(time.Duration) bool { return true }
@@ -157,6 +162,11 @@ func (c *mqttClient) Publish(topic string, qos byte, retained bool, payload inte
 func (c *mqttClient) Subscribe(topic string, qos byte, cb mqtt.MessageHandler) mqtt.Token {
 	c.b.mu.Lock()
 	defer c.b.mu.Unlock()
+	if c.failSubs > 0 {
+		c.failSubs--
+		c.subFailed++
+		return &token{err: errBrokerUnreachable}
+	}
 	if _, ok := c.handlers[topic]; !ok {
 		c.b.subs[topic] = append(c.b.subs[topic], c)
 	}
